@@ -1,5 +1,9 @@
 pub mod c02;
+pub mod c08;
 pub mod c09;
+pub mod c10;
+pub mod c11;
+pub mod c13;
 pub mod c16;
 pub mod c17;
 pub mod common;
@@ -58,7 +62,11 @@ pub fn finish(
 pub fn dispatch(id: &str) -> Option<(fn(Tier) -> i32, fn(&Value) -> String)> {
     match id {
         "C02" => Some((c02::run, common::replay_lockstep)),
+        "C08" => Some((c08::run, c08::replay)),
         "C09" => Some((c09::run, c09::replay)),
+        "C10" => Some((c10::run, c10::replay)),
+        "C11" => Some((c11::run, c11::replay)),
+        "C13" => Some((c13::run, c13::replay)),
         "C16" => Some((c16::run, common::replay_lockstep)),
         "C17" => Some((c17::run, c17::replay)),
         _ => None,
